@@ -50,6 +50,7 @@ type CheckCfg struct {
 	Assumptions []string           `json:"assumptions"`  // free text, copied into evidence
 	Outside     []string           `json:"outside"`      // free text: outside the claim
 	Overlays    map[string]string  `json:"src_overlays"`
+	HarnessFrom string `json:"harness_from"` // take the harness .go files from another property's directory
 	ValidateWitnesses int `json:"validate_witnesses"`
 	Inductive []string `json:"inductive"` // harnesses that start from an assumed invariant: a failure is a CTI, reported only as a note // repo-relative file -> sed-like "old=>new" one-line source overlay
 }
@@ -73,6 +74,8 @@ func main() {
 		os.Exit(cmdCheck(os.Args[2:]))
 	case "replay":
 		os.Exit(cmdReplay(os.Args[2:]))
+	case "extract":
+		os.Exit(cmdExtract(os.Args[2:]))
 	default:
 		fmt.Fprintln(os.Stderr, "unknown command")
 		os.Exit(2)
@@ -93,7 +96,11 @@ func readCfg(prop string) (*CheckCfg, error) {
 
 func harnessFor(prop string, c *CheckCfg) (*load.Harness, error) {
 	h := &load.Harness{RepoDir: "/repo", PkgDir: c.Dir, PkgName: c.PkgName, Files: map[string]string{}}
-	matches, _ := filepath.Glob(filepath.Join(verifDir, "harness", prop, "*.go"))
+	src := prop
+	if c.HarnessFrom != "" {
+		src = c.HarnessFrom
+	}
+	matches, _ := filepath.Glob(filepath.Join(verifDir, "harness", src, "*.go"))
 	for _, m := range matches {
 		h.Files["zz_vx_"+prop+"_"+filepath.Base(m)] = m
 	}
@@ -628,3 +635,82 @@ func writeReplayTmp(prop, harness string, v vexec.Violation, params map[string]i
 	f.Close()
 	return f.Name()
 }
+
+// cmdExtract: vx extract <Cxx> -setup S_name [-param k=v ...] -o out.json
+func cmdExtract(args []string) int {
+	if len(args) < 1 {
+		fmt.Fprintln(os.Stderr, "usage: vx extract <Cxx> -setup S_name -o out.json [-param k=v]")
+		return 2
+	}
+	prop := args[0]
+	fs := flag.NewFlagSet("extract", flag.ExitOnError)
+	setup := fs.String("setup", "", "setup harness function")
+	out := fs.String("o", "", "output file")
+	var params multiFlag
+	fs.Var(&params, "param", "k=v (repeatable)")
+	fs.Parse(args[1:])
+	c, err := readCfg(prop)
+	if err != nil {
+		fmt.Fprintln(os.Stderr, "vx:", err)
+		return 2
+	}
+	h, err := harnessFor(prop, c)
+	if err != nil {
+		fmt.Fprintln(os.Stderr, "vx:", err)
+		return 2
+	}
+	extra, ovNotes, err := srcOverlays(c)
+	if err != nil {
+		fmt.Fprintln(os.Stderr, "vx:", err)
+		return 2
+	}
+	prog, pkg, err := load.Load(h, filepath.Join(verifDir, "rt"), extra)
+	if err != nil {
+		fmt.Fprintln(os.Stderr, "vx: load:", err)
+		return 2
+	}
+	fn := pkg.Func(*setup)
+	if fn == nil {
+		fmt.Fprintf(os.Stderr, "vx: setup function %s not found\n", *setup)
+		return 2
+	}
+	pm := map[string]int{}
+	for _, kv := range params {
+		var k string
+		var v int
+		parts := strings.SplitN(kv, "=", 2)
+		if len(parts) == 2 {
+			k = parts[0]
+			fmt.Sscan(parts[1], &v)
+			pm[k] = v
+		}
+	}
+	cfg := &vexec.Config{MaxSteps: 2000000, MaxIter: 5000, MaxDepth: 200, Workers: 1, Params: pm}
+	ts, st := vexec.ExtractTS(prog, cfg, fn)
+	ts.Notes = append(ts.Notes, ovNotes...)
+	for k, v := range st.Unsupported {
+		ts.Notes = append(ts.Notes, fmt.Sprintf("UNSUPPORTED x%d: %s", v, k))
+	}
+	for k, v := range st.Limits {
+		ts.Notes = append(ts.Notes, fmt.Sprintf("LIMIT x%d: %s", v, k))
+	}
+	for k, v := range st.Ends {
+		ts.Notes = append(ts.Notes, fmt.Sprintf("END x%d: %s", v, k))
+	}
+	data, _ := json.MarshalIndent(ts, "", " ")
+	if *out == "" {
+		os.Stdout.Write(data)
+	} else if err := os.WriteFile(*out, data, 0o644); err != nil {
+		fmt.Fprintln(os.Stderr, err)
+		return 2
+	}
+	if len(st.Unsupported) > 0 || len(st.Limits) > 0 {
+		return 3
+	}
+	return 0
+}
+
+type multiFlag []string
+
+func (m *multiFlag) String() string     { return strings.Join(*m, ",") }
+func (m *multiFlag) Set(v string) error { *m = append(*m, v); return nil }
